@@ -27,7 +27,7 @@ def default_sig(prefix, err):
     return "%s:fuzz:other" % prefix
 
 
-def make_runner(prefix, exe_env, corpus, max_len=1024, dictionary=None, wisdom=False, sig=None, extra_args=()):
+def make_runner(prefix, exe_env, corpus, max_len=1024, dictionary=None, wisdom=False, sig=None, extra_args=(), env_extra=None):
     """returns run(case) for a Sub.  corpus: list of bytes.  wisdom=True: XDG_DATA_HOME = private dir seeded with /verif/wisdom"""
     sig = sig or (lambda err: default_sig(prefix, err))
 
@@ -35,6 +35,7 @@ def make_runner(prefix, exe_env, corpus, max_len=1024, dictionary=None, wisdom=F
         wd = cli.scratch(prefix + "fz")
         exe = os.environ[exe_env]
         env = dict(os.environ, VERIF_FUZZ_DIR=wd, ASAN_OPTIONS="detect_leaks=0:abort_on_error=0", UBSAN_OPTIONS="print_stacktrace=1:halt_on_error=1")
+        env.update(env_extra or {})
         if wisdom:
             xdg = os.path.join(wd, "xdg")
             wis = os.path.join(xdg, "inovesa", "fftwisdom")
